@@ -5,6 +5,7 @@ CONSTANTS
   Urgent = TRUE
   Guard = FALSE
   SS = TRUE
+  Exp = {}
   Pushes = FALSE
 INVARIANTS Wit2
 CHECK_DEADLOCK FALSE
